@@ -400,7 +400,7 @@ class RecipeGridRendererMixin:
     title_serving_count_pattern = re.compile(
         (
             r"(?P<space>\s+)"
-            r"(?P<preposition>((to\s+)?serves?|for|makes|serving)\s+)"
+            r"(?P<preposition>((to\s+)?(serves?|makes?)|for|serving)\s+)"
             r"(?P<servings>[0-9]+)\s*"
             r"$"
         ),
